@@ -9,7 +9,8 @@ from collections import defaultdict
 from typing import Any, Dict, Set, MutableMapping, Tuple, Mapping, List, FrozenSet
 
 from gambatools.automaton import Automaton
-from gambatools.automaton_algorithms import default_transition_label_regex, default_state_label_regex, AutomatonParser, AutomatonBuilder
+from gambatools.automaton_algorithms import default_transition_label_regex, default_state_label_regex, AutomatonParser, AutomatonBuilder, \
+    dfa_keywords
 from gambatools.dfa import State, Symbol, print_state_set, DFA
 from gambatools.dfa_io import draw_dfa
 from gambatools.nfa import NFA
@@ -358,7 +359,7 @@ def automaton_to_dfa(A: Automaton, transition_regex=default_transition_label_reg
 
 
 def parse_dfa(text: str, transition_regex=default_transition_label_regex(), state_regex=default_state_label_regex()) -> DFA:
-    A = AutomatonParser(state_regex=state_regex, transition_regex=transition_regex).parse(text)
+    A = AutomatonParser(state_regex=state_regex, transition_regex=transition_regex, keywords=dfa_keywords()).parse(text)
     return automaton_to_dfa(A, state_regex=state_regex, transition_regex=transition_regex)
 
 
